@@ -32,7 +32,7 @@ ASSUMPTIONS = B.ASSUMPTIONS_SYS + [
 
 def gen_run(rng, seed):
     sp = B.base_spec(rng, seed)
-    sp["max_uptime"] = rng.choice([0.003, 0.01, 0.02, 0.05])
+    sp["max_uptime"] = rng.choice([0, 0.0, 0.003, 0.01, 0.02, 0.05])      # also a limit of zero: the first check ends the run
     sp["time_scale"] = rng.choice([1.0, 1.0, 2.0, 0.5, 4.0])
     sp["log_interval"] = rng.choice([0.0, 0.0001, 0.001, 0.004, 60.0])
     sp["step_dur"] = rng.choice([0, 0.0005, 0.002, 0.02])
